@@ -509,6 +509,7 @@ func c20Check(r *vcore.Run) vcore.Coverage {
 		}
 	}
 	var evals, nontrivial int64
+	evals += c20Chained(r)
 	// shard masks across workers; each worker owns its env (recording slots are not shared)
 	w := vcore.Workers()
 	vcore.ParallelN(w, func(shard int) {
@@ -569,6 +570,10 @@ func c20Check(r *vcore.Run) vcore.Coverage {
 }
 
 func c20Replay(r *vcore.Run, sub string, raw json.RawMessage) {
+	if sub == "chained" {
+		c20Chained(r)
+		return
+	}
 	var c c20Case
 	if err := json.Unmarshal(raw, &c); err != nil {
 		panic(err)
@@ -582,4 +587,40 @@ func c20Replay(r *vcore.Run, sub string, raw json.RawMessage) {
 			e.run(r, mi, c.Mask, c.NilReceiver, c.Constructor, c.ArgVariant)
 		}
 	}
+}
+
+// c20Chained: two tables alive at once, each with its own constructor; the first table's constructor
+// consults the second table (the same method, with the context it was handed - a fallback registry).
+// What a table does for an unset method depends on that table alone: the second table's constructor is
+// consulted and its error is what the caller of the first table receives.
+func c20Chained(r *vcore.Run) (n int64) {
+	e := newC20Env()
+	for mi, m := range e.methods {
+		m := m
+		name := m.Name
+		r.Guard("chained", "C20/"+name+"/two-tables", name, func() {
+			errB := errors.New("c20 second table's constructor error for " + name)
+			hitsB := 0
+			b := &ociregistry.Funcs{NewError: func(ctx context.Context, method, repo string) error {
+				hitsB++ // (which method name the constructor is told is not part of the statement)
+				return errB
+			}}
+			vec := c20ArgVectors(m)[0]
+			a := &ociregistry.Funcs{}
+			a.NewError = func(ctx context.Context, method, repo string) error {
+				args := append([]reflect.Value{reflect.ValueOf(b)}, vec...)
+				args[1] = reflect.ValueOf(ctx) // the context the constructor was handed
+				return c20ErrOf(m.Func.Call(args))
+			}
+			out := m.Func.Call(append([]reflect.Value{reflect.ValueOf(a)}, vec...))
+			got := c20ErrOf(out)
+			if got != errB || hitsB != 1 {
+				r.Violate("chained", "C20/"+name+"/two-tables/second-table-did-not-consult-its-constructor", name,
+					"the second table's constructor is consulted once and its error comes back", fmt.Sprintf("error %v; constructor consulted %d times", got, hitsB))
+			}
+		})
+		n++
+		_ = mi
+	}
+	return n
 }
